@@ -255,4 +255,15 @@ theorem insert_if_not_idempotent (i : Insert) (pre post : List Tok) (hkw : i.val
     (L : Lexer) (fuel : Nat) (hA : At L 0 i.render) : (classify L fuel).idem = false :=
   insert_if i pre post hkw hpre htail L fuel hA
 
+open CqlVerif.Ast in
+/-- **counter_update_not_idempotent** — counter updates and the ambiguous `column = column ± bind-marker` form: every
+`UPDATE [ks.]table SET c = c2 + n` / `c = c2 - n` / `c = c2 + ?` / `c = c2 - ?` followed by anything at all, for any
+names, scanned from the start of the input, with any fuel, is answered "not idempotent". -/
+theorem counter_update_not_idempotent (ks : Option Ident) (table kw c c2 : Ident) (op : Nat) (arg : Tok) (rest : List Tok)
+    (hkw : kw.equal "set" = true) (hop : op = tkAdd ∨ op = tkSub) (harg : arg.kind = tkInteger ∨ arg.kind = tkQMark)
+    (L : Lexer) (fuel : Nat)
+    (hA : At L 0 (k tkUpdate :: renderName ks table (idt kw :: idt c :: k tkEqual :: idt c2 :: k op :: arg :: rest))) :
+    (classify L fuel).idem = false :=
+  counter_update ks table kw c c2 op arg rest hkw hop harg L fuel hA
+
 end CqlVerif.C06
